@@ -1,6 +1,7 @@
 """Worker process: runs one slice of a property's workload against the real persim tree and dumps what its
 monitors observed as JSON.  Started by vmon.core (never via multiprocessing)."""
 import argparse
+import signal
 import faulthandler
 import importlib
 import json
@@ -8,6 +9,14 @@ import os
 import sys
 import time
 import traceback
+
+
+class CaseTimeout(BaseException):
+    """raised by the per-case alarm; BaseException so that monitors' `except Exception` cannot swallow it"""
+
+
+def _alarm(signum, frame):
+    raise CaseTimeout()
 
 
 def main():
@@ -20,6 +29,7 @@ def main():
     ap.add_argument("--out", required=True)
     ap.add_argument("--soft-deadline", type=float, default=1e9)
     ap.add_argument("--watchdog", type=float, default=0)
+    ap.add_argument("--case-timeout", type=float, default=120.0)
     a = ap.parse_args()
 
     here = os.path.dirname(os.path.dirname(os.path.abspath(__file__)))
@@ -48,6 +58,8 @@ def main():
         ks = [int(x) for x in a.cases.split(",") if x != ""]
     t0 = time.time()
     harness_errors = []
+    n_hangs = 0
+    signal.signal(signal.SIGALRM, _alarm)
     try:
         if hasattr(mod, "setup"):
             mod.setup(ctx)
@@ -55,13 +67,34 @@ def main():
             if time.time() - t0 > a.soft_deadline:
                 ctx.note("soft_deadline_hit")
                 break
-            rng = np.random.default_rng([a.seed, int(a.prop[1:]), k])
-            try:
-                mod.run_case(ctx, k, rng)
-            except Exception as e:  # harness bug, never a verdict about persim
-                harness_errors.append({"case": k, "error": repr(e), "tb": traceback.format_exc()[-3000:]})
-                if len(harness_errors) > 20:
+            # per-case alarm: budget is ~1000x a normal case. A case that exceeds it is re-run once with twice the
+            # budget; only a repeat is reported (clause "call terminates"), and after two such reports the worker stops.
+            hung = False
+            for attempt, budget in enumerate((a.case_timeout, 2 * a.case_timeout)):
+                rng = np.random.default_rng([a.seed, int(a.prop[1:]), k])
+                try:
+                    signal.setitimer(signal.ITIMER_REAL, budget)
+                    try:
+                        mod.run_case(ctx, k, rng)
+                    finally:
+                        signal.setitimer(signal.ITIMER_REAL, 0)
+                    hung = False
                     break
+                except CaseTimeout:
+                    hung = True
+                    ctx.note("case_timeout_attempts")
+                except Exception as e:  # harness bug, never a verdict about persim
+                    harness_errors.append({"case": k, "error": repr(e), "tb": traceback.format_exc()[-3000:]})
+                    hung = False
+                    break
+            if hung:
+                ctx.check("call terminates", False, key="hang", budget_s=2 * a.case_timeout)
+                n_hangs += 1
+                if n_hangs >= 2:
+                    ctx.note("aborted_after_hangs")
+                    break
+            if len(harness_errors) > 20:
+                break
         if hasattr(mod, "teardown"):
             mod.teardown(ctx)
     except Exception as e:
